@@ -469,8 +469,71 @@ def _resample(check, repo, mod) -> None:
         if isinstance(x, ast.If) and unparse(x.test) == "new_len > old_len" and x.orelse:
             txt = " ".join(unparse(s) for s in x.orelse)
             eq_arm_ok = "slice(None)" in txt and "(0, 0)" in txt
-    check.decide(eq_arm_ok, "C06-R3", "Dataset.fourier_resample: unchanged length ⇒ no crop and no pad (identity)", "", mod.line(lp),
-                 fail_detail="the equal-length arm does not append slice(None) and (0, 0)")
+    eq_definite = False
+    if not eq_arm_ok:
+        # evaluate the arm that an unchanged length takes: its slice must be the whole axis and its padding (0, 0) once new_len = old_len (hence nc = oc) is substituted
+        def arm_for_equal(stmts):
+            for x in stmts:
+                if isinstance(x, ast.If) and isinstance(x.test, ast.Compare) and len(x.test.ops) == 1 and {unparse(x.test.left), unparse(x.test.comparators[0])} == {"new_len", "old_len"}:
+                    taken = isinstance(x.test.ops[0], (ast.LtE, ast.GtE, ast.Eq))
+                    if isinstance(x.test.ops[0], (ast.Lt, ast.Gt, ast.LtE, ast.GtE, ast.Eq, ast.NotEq)):
+                        arm = x.body if taken else x.orelse
+                        inner = arm_for_equal(arm)
+                        return inner if inner is not None else arm
+            return None
+        arm = arm_for_equal(lp.body)
+        if arm is None:
+            for x in ast.walk(lp):  # the dispatch may sit under an axis-selection test
+                if isinstance(x, (ast.If, ast.For)) and x is not lp:
+                    arm = arm_for_equal(x.body) or arm_for_equal(getattr(x, "orelse", []))
+                    if arm is not None:
+                        break
+        if arm is None:
+            raise AnalysisError("Dataset.fourier_resample: the arm taken for an unchanged length was not determined")
+        L = Rat.sym("L")
+        env_eq = {"new_len": L, "old_len": L, "oc": Rat.sym("c"), "nc": Rat.sym("c")}
+
+        def ev(e):
+            if isinstance(e, ast.Name) and e.id not in env_eq:
+                dd = [x for x in definitions(lp, e.id) if isinstance(x, ast.AST)]
+                if len(dd) == 1:
+                    return ev(dd[0])
+            if isinstance(e, ast.Name):
+                return env_eq[e.id]
+            if isinstance(e, ast.Constant) and e.value is None:
+                return None
+            if isinstance(e, ast.BinOp):
+                a, b = ev(e.left), ev(e.right)
+                return {ast.Add: lambda: a + b, ast.Sub: lambda: a - b, ast.Mult: lambda: a * b}[type(e.op)]()
+            return from_ast(e, env_eq)
+        ok_sl = ok_pd = False
+        try:
+            for st_ in arm:
+                for c in ast.walk(st_):
+                    if isinstance(c, ast.Call) and isinstance(c.func, ast.Attribute) and c.func.attr == "append" and c.args:
+                        a0 = c.args[0]
+                        if isinstance(a0, ast.Call) and call_name(a0) == "slice":
+                            if len(a0.args) == 1 and is_const(a0.args[0], None):
+                                ok_sl = True
+                            elif len(a0.args) == 2:
+                                lo, hi = ev(a0.args[0]), ev(a0.args[1])
+                                ok_sl = (lo is None or lo.equals(Rat.const(0))) and (hi is None or hi.equals(L))
+                        elif isinstance(a0, ast.Tuple) and len(a0.elts) == 2:
+                            ok_pd = all(ev(x).equals(Rat.const(0)) for x in a0.elts)
+        except (NotArithmetic, KeyError, TypeError, AttributeError):
+            raise AnalysisError("Dataset.fourier_resample: the equal-length arm is not arithmetic")
+        eq_arm_ok, eq_definite = ok_sl and ok_pd, True
+    # `slice(None)` doubles as a sentinel for "axis untouched": a later step that tests for it relies on the identity arm emitting exactly that object
+    sentinel_users = [x for x in ast.walk(fn) if isinstance(x, ast.Compare) and any(isinstance(c, ast.Call) and call_name(c) == "slice" and len(c.args) == 1 and is_const(c.args[0], None)
+                                                                                     for c in [x.left] + list(x.comparators))]
+    if sentinel_users:
+        literal = not eq_definite  # the textual branch above matched `slice(None)` in the equal-length arm
+        check.decide(literal, "C06-R3", "Dataset.fourier_resample: steps that test for the `slice(None)` sentinel see it on every unchanged axis", unparse(sentinel_users[0])[:60],
+                     mod.line(sentinel_users[0]), definite=True,
+                     fail_detail=f"`{unparse(sentinel_users[0])[:60]}` distinguishes touched from untouched axes by the sentinel, but an unchanged length now yields an explicit "
+                                 f"slice(0, n): the step runs on axes that were not resampled — a same-shape resample is no longer the identity")
+    check.decide(eq_arm_ok, "C06-R3", "Dataset.fourier_resample: unchanged length ⇒ no crop and no pad (identity)", "", mod.line(lp), definite=eq_definite,
+                 fail_detail="the arm an unchanged length takes does not select the whole axis with (0, 0) padding")
     # rescale
     sc = [x for x in ast.walk(fn) if isinstance(x, ast.AugAssign) and dotted(x.target) == "array_resampled"]
     def inl(e, depth=0):
